@@ -17,7 +17,16 @@ def str_models(log):
         def f(ip, st, fr, t, args, site, dest_ty):
             ret = T.UNIT if dest_ty == '()' else st.fresh(T.int_type(dest_ty)[0] if T.int_type(dest_ty) else 0, name)
             texts = tuple(absint.as_str(ip, st, a) for a in args)
-            st.events.append(('pure', t['resolved'], tuple(args), ret, site, texts))
+            vals = []
+            for a in args:
+                v = None
+                if a is not None and a[0] == 'ref':
+                    try:
+                        v = ip.read(st, a[1], a[2])
+                    except absint.Abort:
+                        v = None
+                vals.append(v)
+            st.events.append(('pure', t['resolved'], tuple(args), ret, site, texts, tuple(vals)))
             log.append((name, t['resolved'], texts, args, ret, site))
             yield (ret, st, 'ok', None)
         return f
@@ -179,6 +188,7 @@ def run(ctx, chk):
     rs = ipp.run(PC, [S(0, 'line')], st)
     flow_ok = True
     npaths = 0
+    raw_words = set()
     for r in rs:
         evs = [e for e in r.state.events if e[0] in ('pure', 'call')]
         sw = [e for e in evs if e[1].endswith('split_whitespace')]
@@ -189,12 +199,29 @@ def run(ctx, chk):
             npaths += 1
             if not (sw and nx and nc and same(nc[0][2][0], nx[0][3])):
                 flow_ok = False
+            # every comparison with a command-word literal compares a string obtained from normalize_command
+            for e in eqs:
+                lit = [tx for tx in e[5] if tx is not None]
+                other = [a for a, tx in zip(e[2], e[5]) if tx is None]
+                if not lit or not other:
+                    continue
+                okv = False
+                a = other[0]
+                for src in evs:
+                    if src[0] == 'pure' and src[1].split('::')[-1] in ('as_str', 'deref') and same(a, src[3]):
+                        recv = src[6][0] if len(src) > 6 else None
+                        if recv is not None and 'normalize_command' in fmt(recv):
+                            okv = True
+                if not okv:
+                    flow_ok = False
+                    raw_words.add(lit[0])
     if flow_ok and npaths:
         chk.ok('C20.2', 'flow', sample={'paths_with_comparisons': npaths,
                                         'flow': 'line.split_whitespace().next() -> normalize_command -> match'})
     else:
-        chk.fail('C20.2', 'flow', 'the compared command word does not flow from split_whitespace through normalize_command',
-                 file, None)
+        chk.fail('C20.2', 'flow', 'the compared command word does not flow from split_whitespace through normalize_command'
+                 + ((': the words %s are compared with a token that was not trimmed and lower-cased' % sorted(raw_words))
+                    if raw_words else ''), file, None)
     # payload: parse_address result reaches the Command unmodified
     pay_ok = True
     for r in rs:
